@@ -50,6 +50,9 @@ func (c *Cluster) Put(obj runtime.Object) runtime.Object {
 
 // Remove deletes the object from the API state outright.
 func (c *Cluster) Remove(gvr schema.GroupVersionResource, ns, name string) bool {
+	if gvr == GVRPods {
+		return c.removePod(ns, name) == nil
+	}
 	return c.tracker.Delete(gvr, ns, name) == nil
 }
 
@@ -243,6 +246,7 @@ func (c *Cluster) RefreshPods() {
 		objs = append(objs, p)
 	}
 	c.podIdx().Replace(objs, "")
+	c.ghosts = nil // a relist: what came and went in between is never reported
 }
 
 func (c *Cluster) RefreshSets() {
@@ -267,9 +271,18 @@ func (c *Cluster) RefreshPod(ns, name string, notify bool) (changed bool) {
 	key := ns + "/" + name
 	oldI, had, _ := c.podIdx().GetByKey(key)
 	cur := c.Pod(ns, name)
+	ghost := c.ghosts[key]
+	delete(c.ghosts, key)
 	switch {
 	case cur == nil && !had:
-		return false
+		if ghost == nil || !notify {
+			return false
+		}
+		// created and removed while the cache was behind: a watch delivers both events
+		for _, h := range c.r.podHandlers {
+			h.OnAdd(ghost, false)
+			h.OnDelete(ghost)
+		}
 	case cur == nil && had:
 		c.podIdx().Delete(oldI)
 		if notify {
@@ -443,7 +456,7 @@ func (c *Cluster) Kubelet(ns, name string, op KubeletOp) bool {
 		if p.DeletionTimestamp == nil {
 			return false
 		}
-		c.tracker.Delete(GVRPods, ns, name)
+		c.removePod(ns, name)
 		return true
 	}
 	c.savePod(p)
@@ -736,6 +749,12 @@ func (c *Cluster) RunLogged(f func()) (actions []*Action, crashed bool, panicked
 func (c *Cluster) Clone() *Cluster {
 	n := New()
 	n.clock, n.rv, n.uidN = c.clock, c.rv, c.uidN
+	for k, p := range c.ghosts {
+		if n.ghosts == nil {
+			n.ghosts = map[string]*corev1.Pod{}
+		}
+		n.ghosts[k] = p
+	}
 	n.ListPerm = c.ListPerm
 	for _, gk := range []struct {
 		gvr  schema.GroupVersionResource
